@@ -303,6 +303,118 @@ def r5_backend_neutral(run):
               nontrivial=False)
 
 
+MUTATING = {"append", "extend", "insert", "remove", "pop", "clear", "update",
+            "setdefault", "sort", "reverse", "add", "discard", "popitem",
+            "__setitem__", "__delitem__"}
+FRESH_CALLS = {"copy", "list", "dict", "set", "sorted", "deepcopy", "tuple",
+               "union", "decode", "code"}
+
+
+def r6_read_path_does_not_mutate(run):
+    run.rule("R6", "the read path (get, get_identity, active, entities, "
+             "subjects) never modifies in place an object it obtained from the "
+             "cache map: what one query merges must not leak into what the "
+             "next query returns")
+    m = run.model
+    from ..dataflow import ReachingDefs
+    n = 0
+    for name in ("get", "get_identity", "active", "entities", "subjects",
+                 "receivers"):
+        fi = m.func(C + name)
+        cfg = cfg_of(fi, m)
+        rd = ReachingDefs(cfg)
+        tainted_elems = set()
+
+        def level(expr, nid, depth=0):
+            """0 fresh object; 1 fresh container whose elements are stored
+            objects (shallow copy); 2 an object stored in the cache map."""
+            if expr is None or depth > 8:
+                return 0
+            if isinstance(expr, ast.Name):
+                best = 0
+                for d in rd.reaching(expr.id, nid):
+                    if d.weak or d.kind == "param":
+                        continue
+                    if d.kind == "assign":
+                        best = max(best, level(d.value, d.node, depth + 1))
+                    elif d.kind in ("unpack", "iter", "with"):
+                        best = max(best, 2 if level(d.value, d.node,
+                                                    depth + 1) >= 1 else 0)
+                return best
+            if isinstance(expr, ast.Attribute):
+                ch = attr_chain(expr) or ""
+                if ch.startswith("self._db"):
+                    return 2
+                return level(expr.value, nid, depth + 1)
+            if isinstance(expr, ast.Subscript):
+                if isinstance(expr.value, ast.Name) and \
+                        expr.value.id in tainted_elems:
+                    return 2
+                return 2 if level(expr.value, nid, depth + 1) >= 1 else 0
+            if isinstance(expr, ast.Call):
+                f = expr.func
+                nm = call_name(expr)
+                if isinstance(f, ast.Attribute) and nm in ("items", "values",
+                                                            "keys", "get"):
+                    if attr_chain(f) == "self.get":
+                        return 1
+                    return level(f.value, nid, depth + 1)
+                if attr_chain(f) == "self.get":
+                    return 1
+                if nm in FRESH_CALLS:
+                    src = f.value if isinstance(f, ast.Attribute) and \
+                        nm in ("copy", "union") else \
+                        (expr.args[0] if expr.args else None)
+                    return 1 if level(src, nid, depth + 1) >= 1 and \
+                        nm in ("copy", "dict", "list", "tuple") else 0
+                return 0
+            if isinstance(expr, (ast.List, ast.Tuple, ast.Set, ast.Dict,
+                                 ast.ListComp, ast.DictComp, ast.SetComp)):
+                return 0
+            return 0
+        for nd in cfg.by_kind("stmt"):
+            s2 = nd.ast
+            if isinstance(s2, ast.Assign):
+                for t in s2.targets:
+                    if isinstance(t, ast.Subscript) and \
+                            isinstance(t.value, ast.Name) and \
+                            level(s2.value, nd.id) == 2:
+                        tainted_elems.add(t.value.id)
+        for nd in cfg.stmt_nodes():
+            for root in cfg.own_exprs(nd):
+                for c in walk_no_nested(root):
+                    if not (isinstance(c, ast.Call) and
+                            isinstance(c.func, ast.Attribute) and
+                            c.func.attr in MUTATING):
+                        continue
+                    n += 1
+                    bad = level(c.func.value, nd.id) == 2
+                    run.check(not bad, "R6", "%s::%s" % (fi.qual,
+                                                         norm_text(c)[:70]),
+                              "mutates a fresh object",
+                              "%s() is applied in place to an object that may "
+                              "be the very list/dict stored in the cache (e.g. "
+                              "res[key] was bound to a stored value list): a "
+                              "later query for one source returns values merged "
+                              "in from another, also after that other source "
+                              "expired or was reset" % c.func.attr, fi.loc(c))
+            s2 = nd.ast
+            if nd.kind == "stmt" and isinstance(s2, (ast.Assign, ast.AugAssign,
+                                                     ast.Delete)):
+                tg = s2.targets if not isinstance(s2, ast.AugAssign) \
+                    else [s2.target]
+                for t in tg:
+                    if isinstance(t, ast.Subscript):
+                        n += 1
+                        bad = level(t.value, nd.id) == 2
+                        run.check(not bad, "R6", "%s::%s" % (
+                            fi.qual, norm_text(s2)[:70]),
+                            "stores into a fresh object",
+                            "item assignment/deletion on an object that may be "
+                            "stored cache data", fi.loc(s2))
+    run.floor("R6", "mutation sites on the read path", n, 3)
+
+
 def check(run):
     run.explanation = (
         "C19: key discipline of every access to Cache._db (derivation of the "
@@ -318,3 +430,4 @@ def check(run):
     r3_stale_contribute_nothing(run)
     r4_delete_reset(run)
     r5_backend_neutral(run)
+    r6_read_path_does_not_mutate(run)
